@@ -6,6 +6,7 @@ CONSTANTS
   GuiseMaxN = 3
   GuiseTest = "callable"
   ArgSwap = "none"
+  IndexWrap = 0
   GeoMaxN = 4
   GeoFilter = "none"
   RetMaxN = 4
